@@ -51,7 +51,23 @@ type NProgBody struct {
 	UEn   bool    `json:"uEn"`
 	Offer [][]int `json:"offer"`
 	Reply [][]int `json:"reply"`
+	Rhx   NRhx    `json:"rhx"`
 	Steps []NStep `json:"steps"`
+}
+
+// NRhx is an application supplied Sec-WebSocket-Extensions entry of the
+// responseHeader map handed to Upgrade (pair and offer modes).
+type NRhx struct {
+	Present bool  `json:"present"`
+	Key     []int `json:"key"` // the key exactly as spelled in the map
+	V       []int `json:"v"`
+}
+
+func (x *NRhx) header() http.Header {
+	if !x.Present {
+		return nil
+	}
+	return http.Header{cpBytes(x.Key): []string{cpBytes(x.V)}}
 }
 
 type NProg struct {
@@ -212,7 +228,8 @@ type openMsg struct {
 func RunNegotiate(p *NProg) (evs []Ev) {
 	pr := &p.Prog
 	evs = append(evs, Ev{"e": "Reset", "tid": p.ID, "prog": Ev{"mode": pr.Mode, "dEn": pr.DEn, "uEn": pr.UEn,
-		"offer": nzz(pr.Offer), "reply": nzz(pr.Reply), "nsteps": len(pr.Steps)}})
+		"offer": nzz(pr.Offer), "reply": nzz(pr.Reply), "nsteps": len(pr.Steps),
+		"rhx": Ev{"present": pr.Rhx.Present, "key": nz(pr.Rhx.Key), "v": nz(pr.Rhx.V)}}})
 	done := make(chan []Ev, 1)
 	go func() {
 		var out []Ev
@@ -280,7 +297,7 @@ func (r *negRun) exec(out *[]Ev) {
 		}
 		w := &fakeRW{conn: r.sEnd, hdr: http.Header{}, brw: bufio.NewReadWriter(br, bufio.NewWriter(r.sEnd))}
 		u := websocket.Upgrader{EnableCompression: pr.UEn}
-		sc, serr := u.Upgrade(w, req, nil)
+		sc, serr := u.Upgrade(w, req, pr.Rhx.header())
 		if serr != nil {
 			r.sEnd.Close()
 		}
@@ -302,7 +319,7 @@ func (r *negRun) exec(out *[]Ev) {
 		br := bufio.NewReader(r.sEnd)
 		w := &fakeRW{conn: r.sEnd, hdr: http.Header{}, brw: bufio.NewReadWriter(br, bufio.NewWriter(r.sEnd))}
 		u := websocket.Upgrader{EnableCompression: pr.UEn}
-		sc, serr := u.Upgrade(w, req, nil)
+		sc, serr := u.Upgrade(w, req, pr.Rhx.header())
 		r.sc = sc
 		ok = serr == nil
 		if !ok {
